@@ -1707,8 +1707,15 @@ class DiameterMessage:
 
         if self.has_avp("session_id_avp"):
             if "session_id" not in avps.keys() and "origin_host" in avps.keys():
-                previous = self.session_id_avp.data.decode("utf-8")
-                data = SessionHandler.get_session_id(avps["origin_host"], previous)
+                #: The identity may come as bytes (relayed from another AVP's
+                #: data); the Session-Id being replaced may hold any bytes.
+                origin_host = avps["origin_host"]
+                if isinstance(origin_host, bytes):
+                    origin_host = origin_host.decode("utf-8")
+
+                previous = self.session_id_avp.data.decode("utf-8", 
+                                                           errors="replace")
+                data = SessionHandler.get_session_id(origin_host, previous)
                 self.session_id_avp.data = data
 
         self.refresh()
